@@ -3,8 +3,9 @@
 Theorems: coq/theorems/C20.v (model coq/model/GeomM.v, proofs coq/proofs/GeomP.v).
 Tie: functional lock-step of the real classes of infretis.classes.orderparameter
 (pbc_dist_coordinate, Distance, Distancevel, Position, Velocity, Dihedral, Puckering), of
-EngineBase.calculate_order (vel_rev flag) and of Path.reverse (order recomputation) against
-the extracted model.  Inputs live on a dyadic grid k / 2^g, so the integers k are fed to the
+EngineBase.calculate_order (vel_rev flag; array route and file route, on real engines reading
+configuration files with their own _read_configuration) and of Path.reverse (order
+recomputation) against the extracted model.  Inputs live on a dyadic grid k / 2^g, so the integers k are fed to the
 model and the exactly representable floats to the implementation; the model returns the
 exact integer ARGUMENTS of sqrt / arctan2, the harness applies sqrt / arctan2 / sin / cos to
 them and compares with the implementation's float at 1e-9.  The same cases are pushed
@@ -15,6 +16,7 @@ box-form independence, half-box bound, purity) is evaluated directly on the impl
 import importlib.util  # noqa: F401
 import itertools
 import math
+import os
 import types
 
 import numpy as np
@@ -25,8 +27,8 @@ META = {
     "id": "C20",
     "level": "proof",
     "technique": "Coq theorems (ring/lia/nia over Z, unbounded) about an executable integer model of pbc_dist_coordinate and the built-in order parameters returning the exact arguments of sqrt/arctan2 + lock-step of the extracted model vs the real classes on dyadic-grid inputs (exhaustive small grids, seeded random beyond) + direct symmetry oracle on the implementation",
-    "text": "Unbounded theorems for every coordinate, velocity, orthogonal box, index choice, image shift, translation and rational rotation: translation invariance of Distance/Distancevel/Dihedral/Puckering; image-shift invariance of the periodic variants (Distance unconditionally, the others unless a separation component is exactly a half-integer multiple of the box length, with a computed witness that this guard is necessary); |minimum-image component| <= L/2 and it is an image; rotation invariance (M^T M = c^2 I, det = c^3; the dihedral numerator flips under improper maps); sign flip of Distancevel/Velocity and invariance of the position-type parameters under velocity reversal, also through the vel_rev flag of calculate_order; 3- vs 9-component box independence; homogeneity under a common positive factor (which is what makes the integer/dyadic scaling immaterial). The model is tied to /repo on every run by lock-step of the extracted model against the real classes and by evaluating the statement itself on the real classes (inputs copied before and compared after calculate).",
-    "note": "Trusted: Coq kernel (all 40 theorems closed under the global context); extraction (ExtrOcamlBasic) + OCaml driver; the Python harness, which also applies the uninterpreted sqrt/arctan2/sin/cos to the model's exact arguments. Floating-point rounding is outside the model: inputs are dyadic so that every sum/product before the final sqrt/arctan2 is exact; cases whose result depends on the last ulp (exact half-box ties with a box length that is not a power of two, exactly degenerate angles) are counted as float_boundary_skipped. Model numbers are integers (dyadic floats over a common power of two; homogeneity theorems C20_scale_*); rotations are rational (integer matrix M with M^T M = c^2 I). Distancevel is modelled as repaired by proposed_fixes/C20_distancevel_box.diff (lead L7; theorem C20_box_form_distancevel_refuted covers the code as it is). Path.reverse's recomputation of velocity-dependent orders is modelled as it is and does not honour the reversal (lead L12: C20_path_reverse_sign_refuted, C20_path_reverse_unevaluable) - reported as a known finding, not claimed.",
+    "text": "Unbounded theorems for every coordinate, velocity, orthogonal box, index choice, image shift, translation and rational rotation: translation invariance of Distance/Distancevel/Dihedral/Puckering; image-shift invariance of the periodic variants (Distance unconditionally, the others unless a separation component is exactly a half-integer multiple of the box length, with a computed witness that this guard is necessary); |minimum-image component| <= L/2 and it is an image; rotation invariance (M^T M = c^2 I, det = c^3; the dihedral numerator flips under improper maps); sign flip of Distancevel/Velocity and invariance of the position-type parameters under velocity reversal, also through the vel_rev flag of calculate_order on both of its routes (phase point handed in as arrays, or - as soon as one of xyz / vel / box is missing - read by the engine's own _read_configuration from the file the phase point references: the routes agree and the flag is applied on both); 3- vs 9-component box independence; homogeneity under a common positive factor (which is what makes the integer/dyadic scaling immaterial). The model is tied to /repo on every run by lock-step of the extracted model against the real classes and by evaluating the statement itself on the real classes (inputs copied before and compared after calculate). calculate_order is run on real engines in process (TurtleMDEngine constructed as the program does, CP2KEngine and GromacsEngine without their constructors; xyz and g96 files written with the package's writers) for every way of leaving arguments out, vel_rev False/True, Position / Velocity / Distance / Distancevel / Dihedral, with decoy overrides and a stale system.box.",
+    "note": "Trusted: Coq kernel (all 46 theorems closed under the global context); extraction (ExtrOcamlBasic) + OCaml driver; the Python harness, which also applies the uninterpreted sqrt/arctan2/sin/cos to the model's exact arguments. Floating-point rounding is outside the model: inputs are dyadic so that every sum/product before the final sqrt/arctan2 is exact; cases whose result depends on the last ulp (exact half-box ties with a box length that is not a power of two, exactly degenerate angles) are counted as float_boundary_skipped. calculate_order's file route takes what _read_configuration returns as an explicit input of the model (the readers themselves are C19's subject); the phase points written to files have at most 4 binary digits so that the 4-decimal box header and the 9-decimal coordinates are exact and both routes must give bit-identical values; a file without box keeps whatever system.box held (modelled as box0; no agreement of routes is claimed for periodic parameters then). Model numbers are integers (dyadic floats over a common power of two; homogeneity theorems C20_scale_*); rotations are rational (integer matrix M with M^T M = c^2 I). Distancevel is modelled as repaired by proposed_fixes/C20_distancevel_box.diff (lead L7; theorem C20_box_form_distancevel_refuted covers the code as it is). Path.reverse's recomputation of velocity-dependent orders is modelled as it is and does not honour the reversal (lead L12: C20_path_reverse_sign_refuted, C20_path_reverse_unevaluable) - reported as a known finding, not claimed.",
     "design_ref": "4/C20",
 }
 LEVEL = "proof"
@@ -794,6 +796,266 @@ def run_path_reverse(ctx, runner, rng, tier):
             "L12_sign_not_flipped_cases": l12_sign, "L12_unevaluable_cases": l12_none}
 
 
+# --------------------------------------------------------------------------- calculate_order: array route and file route
+#
+# EngineBase.calculate_order(system, xyz, vel, box) uses the arrays handed in when all three are given and
+# otherwise reads the phase point from system.config[0] with the engine's own _read_configuration.  The
+# vel_rev flag of the phase point has to be honoured on both routes (theorems C20_calculate_order_file_route,
+# C20_calculate_order_routes_agree, C20_velocity_sign_calculate_order_*).  Real engines that work in process:
+# TurtleMDEngine (constructed as the program does; xyz files), CP2KEngine and GromacsEngine (created without
+# running their constructors, which look for the external program's input files; xyz / g96 readers).
+
+ENGINES = ("turtlemd", "cp2k", "gromacs")
+FILE_MASKS = ("000", "110", "101", "011", "100", "010", "001")     # which of xyz / vel / box are handed in
+ROUTE_KINDS = ("pos", "vel", "dist", "dvel", "dih")
+_ENGINES = {}
+
+
+def get_engine(name):
+    if name in _ENGINES:
+        return _ENGINES[name]
+    if name == "turtlemd":
+        from infretis.classes.engines.turtlemdengine import TurtleMDEngine
+        try:
+            eng = TurtleMDEngine(timestep=0.025, subcycles=1, temperature=0.07, boltzmann=1.0,
+                                 integrator={"class": "VelocityVerlet", "settings": {}},
+                                 potential={"class": "DoubleWell", "settings": {"a": 1.0, "b": 2.0, "c": 0.0}},
+                                 particles={"mass": [1.0], "name": ["Z"], "pos": [[-1.0]]}, box={"periodic": [False]})
+        except Exception:  # noqa: BLE001  the constructor is not what is examined here
+            eng = object.__new__(TurtleMDEngine)
+            eng.ext = "xyz"
+    elif name == "cp2k":
+        from infretis.classes.engines.cp2k import CP2KEngine
+        eng = object.__new__(CP2KEngine)
+        eng.ext = "xyz"
+    elif name == "gromacs":
+        from infretis.classes.engines.gromacs import GromacsEngine
+        eng = object.__new__(GromacsEngine)
+        eng.ext = "g96"
+    else:
+        raise ValueError(name)
+    _ENGINES[name] = eng
+    return eng
+
+
+def route_arrays(case):
+    """the phase point (what the file holds) and the overrides handed in on the file route, as floats"""
+    s = float(2 ** case["g"])
+    P = np.array(case["pos"], dtype=float).reshape(-1, 3) / s
+    V = np.array(case["vel"], dtype=float).reshape(-1, 3) / s
+    B = None if case["box"] is None else np.array(case["box"], dtype=float) / s
+    return P, V, B
+
+
+def route_overrides(case):
+    """integer (grid) overrides: the phase point itself, or decoys that differ from it in every entry"""
+    box = case["box"] if case["box"] is not None else [8 << case["g"]] * 3
+    if case.get("decoy"):
+        return ([[x + 3 for x in p] for p in case["pos"]], [[2 * x + 1 for x in v] for v in case["vel"]], [x + 2 for x in box])
+    return case["pos"], case["vel"], box
+
+
+def write_conf(case, tmp):
+    """the phase point as a configuration file of the engine (cached per engine and phase point)"""
+    ext = get_engine(case["engine"]).ext
+    P, V, B = route_arrays(case)
+    path = os.path.join(tmp, f"c{abs(hash((ext, case['g'], repr(case['pos']), repr(case['vel']), repr(case['box'])))):x}.{ext}")
+    if os.path.exists(path):
+        return path
+    if ext == "g96":
+        from infretis.classes.engines.gromacs import write_gromos96_file
+        labels = [f"{i + 1:5d} {'SOL':5s} {'OW':5s}{i + 1:7d}" for i in range(len(P))]
+        raw = {"TITLE": ["c20 phase point"], "POSITION": list(labels), "VELOCITY": list(labels)}
+        if B is not None:
+            raw["BOX"] = ["placeholder"]
+        write_gromos96_file(path, raw, P, V, B)
+    else:
+        from infretis.classes.engines.engineparts import write_xyz_trajectory
+        write_xyz_trajectory(path, P, V, ["Ar"] * len(P), B, append=False)
+    return path
+
+
+def route_eval(case, route, vr, path):
+    """the REAL engine's calculate_order for the phase point in `path`; route 'array' hands the phase point in,
+    route 'file' hands in what the mask says (the rest is None).  -> (floats | 'N' | 'EXC:..', purity note)"""
+    from infretis.classes.system import System
+    eng = get_engine(case["engine"])
+    sc = float(2 ** case["g"])
+    P, V, B = route_arrays(case)
+    if route == "array":
+        xyz, vel = P, V
+        box = B if B is not None else np.array([8.0, 8.0, 8.0])
+    else:
+        oP, oV, oB = route_overrides(case)
+        m = case["mask"]
+        xyz = np.array(oP, dtype=float).reshape(-1, 3) / sc if m[0] == "1" else None
+        vel = np.array(oV, dtype=float).reshape(-1, 3) / sc if m[1] == "1" else None
+        box = np.array(oB, dtype=float) / sc if m[2] == "1" else None
+    keep = [None if a is None else a.copy() for a in (xyz, vel, box)]
+    s = System()
+    s.config = (path, 0)
+    s.order = [1.25]
+    s.vel_rev = vr
+    s.box = None if case.get("box0") is None else np.array(case["box0"], dtype=float) / sc
+    eng.order_function = make_op(case)
+    with np.errstate(all="ignore"):
+        try:
+            res = [float(x) for x in eng.calculate_order(s, xyz=xyz, vel=vel, box=box)]
+        except (IndexError, TypeError):
+            res = "N"
+        except Exception as e:  # noqa: BLE001
+            res = f"EXC:{type(e).__name__}"
+    note = None
+    if any((a is None) != (k is None) or (a is not None and not np.array_equal(a, k)) for a, k in zip((xyz, vel, box), keep)):
+        note = "calculate_order modified the arrays it was given"
+    elif s.config != (path, 0) or s.order != [1.25] or s.vel_rev is not vr:
+        note = "calculate_order modified config / order / vel_rev of the System"
+    return res, note
+
+
+def route_request(case, route, vr):
+    oP, oV, oB = route_overrides(case) if route == "file" else (case["pos"], case["vel"], case["box"] if case["box"] is not None else [8 << case["g"]] * 3)
+    inner = {"kind": case["kind"], "idx": case["idx"], "per": case["per"], "pos": oP, "vel": oV, "box": oB, "tr": {"t": "vr"} if vr else None}
+    conf = sysenc(case)
+    box0 = "N" if case.get("box0") is None else zl(case["box0"])
+    return f"via {case['mask'] if route == 'file' else '111'} {conf} {box0} {request(inner, True)}"
+
+
+def same_vals(a, b, sign=1.0):
+    if isinstance(a, str) or isinstance(b, str):
+        return a == b
+    return len(a) == len(b) and all((sign * x == y) or (math.isnan(x) and math.isnan(y)) for x, y in zip(a, b))
+
+
+def route_case_eval(case, tmp):
+    """-> dict with the four implementation values, requests and the verdicts of the statement"""
+    path = write_conf(case, tmp)
+    vals, notes, reqs = {}, [], []
+    for route in ("file", "array"):
+        for vr in (False, True):
+            vals[(route, vr)], note = route_eval(case, route, vr, path)
+            if note:
+                notes.append(f"{route} route, vel_rev={vr}: {note}")
+            reqs.append(((route, vr), route_request(case, route, vr)))
+    veltype = case["kind"] in ("vel", "dvel")
+    name = type(make_op(case)).__name__
+    fails = []
+    how = {"file": f"read from the configuration file by {type(get_engine(case['engine'])).__name__}._read_configuration "
+                   f"(handed in: {', '.join(n for n, b in zip(('xyz', 'vel', 'box'), case['mask']) if b == '1') or 'nothing'})",
+           "array": "handed in as arrays"}
+    for route in ("file", "array"):
+        f, t = vals[(route, False)], vals[(route, True)]
+        if not same_vals(f, t, -1.0 if veltype else 1.0):
+            fails.append(f"{name} through calculate_order, phase point {how[route]}: vel_rev=False gives {f}, vel_rev=True gives {t}; "
+                         f"it should {'change sign' if veltype else 'stay the same'} under velocity reversal")
+    # the same phase point on both routes (not claimed when the file has no box and a periodic parameter would use a stale one)
+    if case["box"] is not None or not case["per"] or case["kind"] in ("pos", "vel"):
+        for vr in (False, True):
+            if not same_vals(vals[("file", vr)], vals[("array", vr)]):
+                fails.append(f"{name} (vel_rev={vr}): {vals[('array', vr)]} when the phase point is handed in as arrays but {vals[('file', vr)]} "
+                             f"when it is {how['file']}")
+    fails += [f"purity: {n}" for n in notes]
+    return {"values": {f"{r}/{'rev' if v else 'fwd'}": x for (r, v), x in vals.items()}, "vals": vals, "requests": reqs, "fails": fails, "file": path}
+
+
+def gen_routes(rng, tier):
+    cases = []
+    # exhaustive small scope: every engine x every way of leaving an argument out x box in the file or not x
+    # every atom/dimension (Position, Velocity), every pair (Distance, Distancevel; open and periodic), a dihedral
+    P = [[3, -1, 4], [1, 5, -9], [2, 6, 5], [-7, 2, 8]]
+    V = [[-3, 5, 8], [9, -7, 9], [3, 2, -3], [4, -6, 1]]
+    j = 0
+    for eng in ENGINES:
+        for mask in FILE_MASKS:
+            for box in ([8, 6, 12], None):
+                sel = [("pos", [i, d], False) for i in range(4) for d in range(3)] + [("vel", [i, d], False) for i in range(4) for d in range(3)]
+                for a, b in itertools.permutations(range(4), 2):
+                    if a < b or tier != "quick":
+                        for per in ((False, True) if box is not None else (False,)):
+                            sel += [("dist", [a, b], per), ("dvel", [a, b], per)]
+                sel += [("dih", [0, 1, 2, 3], box is not None), ("dih", [3, 1, 0, 2], False)]
+                for kind, idx, per in sel:
+                    j += 1
+                    cases.append({"engine": eng, "mask": mask, "kind": kind, "idx": idx, "per": per, "g": 2, "pos": P, "vel": V, "box": box,
+                                  "decoy": mask != "000" and j % 2 == 0, "box0": None if j % 3 else [16, 16, 16]})
+    # a stale system.box with a file without box (lock-step only for the periodic parameters)
+    for eng in ENGINES:
+        for kind, idx in (("dist", [0, 1]), ("dvel", [2, 0])):
+            for box0 in (None, [4, 4, 4]):
+                cases.append({"engine": eng, "mask": "000", "kind": kind, "idx": idx, "per": True, "g": 1, "pos": P, "vel": V, "box": None,
+                              "decoy": False, "box0": box0})
+    # seeded random beyond
+    for _ in range(400 if tier == "quick" else 5000):
+        kind = rng.choice(["vel", "dvel", "dvel", "dist", "pos", "dih"])
+        na = rng.randrange(2 if kind != "dih" else 4, 8)
+        g = rng.randrange(0, 5)               # <= 4 binary digits: exact in the 4 decimals of the xyz box header
+        rc = rng.choice([4, 16, 64, 300])
+        pos = [[rng.randrange(-rc, rc + 1) for _ in range(3)] for _ in range(na)]
+        vel = [[rng.randrange(-50, 51) for _ in range(3)] for _ in range(na)]
+        box = None if rng.random() < 0.25 else [2 ** rng.randrange(1, 7) if rng.random() < 0.5 else rng.randrange(1, 80) for _ in range(3)]
+        per = box is not None and rng.random() < 0.7
+        ni = {"dist": 2, "dvel": 2, "dih": 4, "pos": 1, "vel": 1}[kind]
+        idx = rng.sample(range(na), ni)
+        if kind in ("pos", "vel"):
+            idx = [idx[0], rng.randrange(3)]
+            per = False
+        mask = rng.choice(FILE_MASKS)
+        cases.append({"engine": rng.choice(ENGINES), "mask": mask, "kind": kind, "idx": idx, "per": per, "g": g, "pos": pos, "vel": vel, "box": box,
+                      "decoy": mask != "000" and rng.random() < 0.6, "box0": rng.choice([None, None, [32, 32, 32]])})
+    return cases
+
+
+def run_routes(ctx, runner, rng, tier):
+    tmp = common.scratch_dir("c20_")
+    stats = {"route_cases": 0, "route_lockstep_compared": 0, "route_lockstep_disagreements": 0, "route_float_boundary_skipped": 0,
+             "route_oracle_failures": 0}
+    try:
+        cases = gen_routes(rng, tier)
+        evs = [route_case_eval(c, tmp) for c in cases]
+    finally:
+        common.rmtree(tmp)
+    reqs = [rq for ev in evs for _, rq in ev["requests"]]
+    outs = runner.run(reqs)
+    at = 0
+    nrep = {}
+    pending = []
+    for case, ev in zip(cases, evs):
+        stats["route_cases"] += 1
+        ctx.dist(f"calculate_order/{case['engine']}/{case['kind']}/{'file has box' if case['box'] is not None else 'file without box'}/handed in {case['mask']}")
+        s = 2 ** case["g"]
+        _, badt = tie_info(case)
+        payload = {"engine_case": case, "implementation": ev["values"]}
+        for (key, rq) in ev["requests"]:
+            mo = outs[at]
+            at += 1
+            ctx.count(rq + f" g={case['g']} {case['engine']}", nontrivial=True)
+            if badt and case["kind"] != "dist":
+                stats["route_float_boundary_skipped"] += 1
+                continue
+            stats["route_lockstep_compared"] += 1
+            eo, fl = expect(case, mo, s)
+            if not close(eo, ev["vals"][key], fl):
+                stats["route_lockstep_disagreements"] += 1
+                if ev["fails"]:
+                    continue         # this phase point is itself a failing input of the property: that is the report
+                pending.append((f"calculate_order ({key[0]} route, vel_rev={key[1]})",
+                                dict(payload, request=rq, model=mo, expected_from_model=eo, impl=ev["vals"][key])))
+        if ev["fails"]:
+            stats["route_oracle_failures"] += 1
+            cat = f"{case['kind']}"
+            nrep[cat] = nrep.get(cat, 0) + 1
+            if nrep[cat] <= MAXREP - 1:
+                ctx.violation("C20 statement fails on the implementation: " + ev["fails"][0], dict(payload, observed=ev["fails"]), True)
+    found = bool(nrep)
+    for cat, pl in pending[:MAXREP]:
+        ctx.violation(f"correspondence model/implementation broken for {cat} "
+                      f"({'a failing input of the property was found separately' if found else 'property oracle found no failing input'} among {len(cases)} phase points)",
+                      dict(pl, correspondence="c20 runner (calculate_order_args) vs EngineBase.calculate_order of the real engines"), False)
+    k = len(cases) // 2
+    ctx.sample({"engine_case": cases[k], "implementation": evs[k]["values"], "requests": [r for _, r in evs[k]["requests"]]})
+    return stats
+
+
 # --------------------------------------------------------------------------- witnesses of the Coq file on the implementation
 
 
@@ -840,6 +1102,7 @@ def run(ctx):
                       payload, False)
     stats.update(run_pbc(ctx, runner, rng, ctx.tier))
     stats.update(run_path_reverse(ctx, runner, rng, ctx.tier))
+    stats.update(run_routes(ctx, runner, rng, ctx.tier))
     run_witnesses(ctx)
     for k in (0, len(col.items) // 3, len(col.items) // 2, len(col.items) - 1):
         case, i0, i1, io, it, _, _ = col.items[k]
@@ -851,7 +1114,9 @@ def run(ctx):
         "resolutions; Distance and Distancevel on every separation of a (2R+1)^3 cube (R = 4 quick, 5 thorough) from two reference atoms, "
         "open and in 2 (4) boxes; Dihedral on all 8^4 placements of four atoms on the unit-cube corners, open and periodic; Position/Velocity "
         "on every atom and dimension; Path.reverse on every frame sequence up to length 2 (3) over {3 stored velocities, a frame without arrays} "
-        "x velocity-dependent x rev_v. Seeded random beyond: ring shapes (chair, boat, planar, twist, envelope, collinear) with perturbations "
+        "x velocity-dependent x rev_v; calculate_order on 3 real engines x the 7 ways of leaving out at least one of xyz / vel / box (file route) and the "
+        "array route x file with / without box x vel_rev x every atom and dimension (Position, Velocity), every pair (Distance, Distancevel, open and periodic) "
+        "and two dihedrals of a 4-atom system, with decoy overrides and a stale system.box, plus seeded random phase points. Seeded random beyond: ring shapes (chair, boat, planar, twist, envelope, collinear) with perturbations "
         "for Puckering; random systems of 6-8 atoms, grid 2^-g (g <= 6), open / power-of-two / arbitrary / 9-component boxes, forced half-box "
         "separations. Every case is run untransformed and through one map of a fixed cycle (translation, image shift, proper and improper "
         "rational rotation, velocity reversal, vel_rev flag of calculate_order, common factor). A case is distinct by its request line; all are "
@@ -859,6 +1124,7 @@ def run(ctx):
     ctx.cov["correspondence"] = stats
     ctx.cov["trusted_base"] += [
         "extraction: ExtrOcamlBasic only; ocaml/util.ml + ocaml/c20_driver.ml",
+        "py/checks/c20.py: the configuration files of the calculate_order cases are written with infretis' own write_xyz_trajectory / write_gromos96_file (C19's subject); CP2KEngine / GromacsEngine objects are created without running __init__",
         "py/checks/c20.py: generators, numpy versions of the symmetry maps, and the application of sqrt/arctan2/sin/cos to the model's exact arguments (puck_from_z, expect)",
         "numpy float arithmetic is exact on the dyadic inputs used up to the final sqrt/arctan2/normalisation (tolerance 1e-9)",
     ]
@@ -876,6 +1142,24 @@ def replay(doc):
     print(json.dumps({k: v for k, v in doc.items() if k != "replay"}, indent=1))
     case = rp.get("case")
     r = common.Runner("c20")
+    if rp.get("engine_case"):
+        ec = rp["engine_case"]
+        print("calculate_order case:", json.dumps(ec))
+        tmp = common.scratch_dir("c20r_")
+        try:
+            ev = route_case_eval(ec, tmp)
+            print("configuration file of the phase point:")
+            print(open(ev["file"]).read())
+        finally:
+            common.rmtree(tmp)
+        outs = r.run([rq for _, rq in ev["requests"]])
+        for ((route, vr), rq), mo in zip(ev["requests"], outs):
+            print(f"{route} route, vel_rev={vr}: implementation {ev['vals'][(route, vr)]}  model {mo} -> {expect(ec, mo, 2 ** ec['g'])[0]}")
+        for f in ev["fails"]:
+            print("statement fails:", f)
+        if not ev["fails"]:
+            print("statement on the implementation: holds")
+        return 1 if ev["fails"] else 0
     if rp.get("request"):
         print("request:", rp["request"])
         print("model now answers:", r.run([rp["request"]]))
